@@ -210,10 +210,27 @@ impl Handler<WithVec> for Echo {
         let v: WithVec = msg.deserialize_view().map_err(|_| Status::internal("deserialize"))?;
         // ids >= 2^63 ask for a handler error carrying a code and a message derived from the request
         if v.id >= 1 << 63 {
-            return Err(Status { code: code_for(v.id), message: format!("refused-{}-{}", v.id, v.data.len()) });
+            return Err(Status { code: code_for(v.id), message: error_message(v.id, v.data.len()) });
         }
         Ok(v)
     }
+}
+
+/// The message of a requested handler error: a prefix derived from the request followed by `len` more characters
+/// (every seventh one outside ASCII), so that messages of any size can be asked for.
+fn error_message(id: u64, len: usize) -> String {
+    let mut m = format!("refused-{}-{}:", id, len);
+    m.extend((0..len).map(|i| if i % 7 == 3 { 'é' } else { (b'a' + (i % 23) as u8) as char }));
+    m
+}
+
+/// Long messages are logged as length and digest.
+fn brief(m: &str) -> String {
+    if m.len() <= 120 {
+        return m.to_string();
+    }
+    let h = m.bytes().fold(0xcbf29ce484222325u64, |h, b| (h ^ b as u64).wrapping_mul(0x100000001b3));
+    format!("{}...[{} bytes, {:016x}]", m.chars().take(36).collect::<String>(), m.len(), h)
 }
 
 fn code_for(id: u64) -> ErrorCode {
@@ -448,17 +465,21 @@ pub async fn record() {
     small_rt!(Arr5, "Arr5", arrs);
     // handler errors: code and message must reach the client unchanged
     let mut errs = 0u64;
-    for i in 0..10u64 {
+    // message sizes: small ones, every size around the usual small-buffer limits, and large ones
+    let mut sizes: Vec<usize> = vec![0, 1, 2, 3, 9, 27, 100, 200, 255, 256, 257, 1000, 1023, 1024, 1025, 4095, 4096, 4097, 65_535, 65_536, 70_000, 1 << 20];
+    sizes.extend(440..=530);
+    for (i, size) in sizes.into_iter().enumerate() {
+        let i = i as u64;
         let id = (1u64 << 63) + i + (rng.gen::<u32>() as u64) * 5;
-        let v = WithVec { id, data: vec![0; (i * 3) as usize] };
+        let v = WithVec { id, data: vec![0; size] };
         let r = client.send(&v).await;
         let (got_code, got_msg) = match r {
             Err(s) => (format!("{:?}", s.code), s.message),
             Ok(_) => ("none".into(), String::new()),
         };
         errs += 1;
-        writeln!(f, "{}", json!({"ev": "status", "sentCode": format!("{:?}", code_for(id)), "sentMessage": format!("refused-{}-{}", id, v.data.len()),
-                                 "gotCode": got_code, "gotMessage": got_msg})).unwrap();
+        writeln!(f, "{}", json!({"ev": "status", "sentCode": format!("{:?}", code_for(id)), "sentMessage": brief(&error_message(id, v.data.len())),
+                                 "gotCode": got_code, "gotMessage": brief(&got_msg)})).unwrap();
     }
     server.shutdown();
     f.flush().unwrap();
